@@ -45,6 +45,7 @@ def render_marks(ast):
 
 
 MISPLACED = {"charset-late": '@charset "utf-8";', "import-late": '@import "late.css";', "namespace-late": '@namespace q "v";',
+             "namespace-redeclare-late": '@namespace p "v2";', "namespace-default-late": '@namespace "dd";',
              "margin-outside-page": "@top-left { left: 0 }"}
 IN_MEDIA = {"import-in-media": '@import "m.css";', "charset-in-media": '@charset "utf-8";', "fontface-in-media": "@font-face { font-family: y }"}
 
@@ -55,7 +56,7 @@ def strip_injected(dom):
         if r["k"] == "unknown" and (r["text"].startswith("@kw") or r["text"].startswith("@garbage")):
             continue
         # the misplaced at-rule itself may or may not be kept
-        if r["k"] == "margin" or (r["k"] == "import" and r["href"] in ("late.css", "m.css")) or (r["k"] == "namespace" and r["prefix"] == "q") \
+        if r["k"] == "margin" or (r["k"] == "import" and r["href"] in ("late.css", "m.css")) or (r["k"] == "namespace" and (r["prefix"] == "q" or r["uri"] in ("v2", "dd"))) \
                 or (r["k"] == "fontface" and any(d.get("name") == "font-family" and d["value"] and d["value"][0]["x"] == "y" for d in r["body"])):
             continue
         if r["k"] == "media":
